@@ -95,11 +95,13 @@ def layout_violation(c, k):
         k["SlotsPerBlock"], k["HandleSize"], k["CrcWidth"], need, k["BlockSize"])
 
 
-def validate(c, cfg_text, traces, chunk_lines=60000, timeout=1500, cfg_name="RegistryMapTrace_run.cfg", par=4):
+def validate(c, cfg_text, traces, chunk_lines=60000, timeout=1500, cfg_name="RegistryMapTrace_run.cfg", par=4, max_rej=2):
     """Trace validation with RegistryMapTrace.  traces: [(name, [event, ...])].
     Returns (rejections, stale): rejections as vlib.validate_traces does; stale = [(trace name, event index, event,
     events)] for every step that needed the finding branch of the specification.
-    The traces are split into `par` groups validated by as many single-worker TLC processes at the same time."""
+    The traces are split into `par` groups validated by as many single-worker TLC processes at the same time.
+    A group stops after max_rej rejected traces (every rejection costs one more TLC run; a handful is enough for a
+    verdict); the traces it did not get to are not counted as validated."""
     from concurrent.futures import ThreadPoolExecutor
     groups = [[] for _ in range(max(1, min(par, len(traces))))]
     load = [0] * len(groups)
@@ -107,7 +109,7 @@ def validate(c, cfg_text, traces, chunk_lines=60000, timeout=1500, cfg_name="Reg
         g = load.index(min(load))
         groups[g].append(t); load[g] += len(t[1]) + 1
     with ThreadPoolExecutor(len(groups)) as ex:
-        futs = [ex.submit(_validate_group, c, cfg_text, g, chunk_lines, timeout, cfg_name, "trace%d" % n)
+        futs = [ex.submit(_validate_group, c, cfg_text, g, chunk_lines, timeout, cfg_name, "trace%d" % n, max_rej)
                 for n, g in enumerate(groups)]
         res = [f.result() for f in futs]
     rejections, stale = [], []
@@ -117,15 +119,15 @@ def validate(c, cfg_text, traces, chunk_lines=60000, timeout=1500, cfg_name="Reg
     return rejections, stale
 
 
-def _validate_group(c, cfg_text, traces, chunk_lines, timeout, cfg_name, tag):
+def _validate_group(c, cfg_text, traces, chunk_lines, timeout, cfg_name, tag, max_rej):
     rejections, stale, states, trans, ok = [], [], 0, 0, 0
     i = 0
-    while i < len(traces):
+    while i < len(traces) and len(rejections) < max_rej:
         part, n = [], 0
         while i < len(traces) and (not part or n + len(traces[i][1]) + 1 <= chunk_lines):
             part.append(traces[i]); n += len(traces[i][1]) + 1; i += 1
         pending = part
-        while pending:
+        while pending and len(rejections) < max_rej:
             lines, index = [], []
             for ti, (name, evs) in enumerate(pending):
                 lines.append(json.dumps({"ev": "Reset"})); index.append((ti, -1))
@@ -141,8 +143,9 @@ def _validate_group(c, cfg_text, traces, chunk_lines, timeout, cfg_name, tag):
                 if m:
                     hwm = int(m.group(1))
             inv = None
-            if hwm is None and r.violated not in (None, "postcondition", "deadlock", "assumption"):
-                # an invariant failed in the state reached by consuming line l-1: TLC stops without the postcondition
+            if r.violated not in (None, "postcondition", "deadlock", "assumption", "temporal"):
+                # an invariant failed in the state reached by consuming line l-1 (TLC then evaluates the postcondition
+                # without the high-water mark, so the HWM it prints is meaningless)
                 ls = re.findall(r"^/\\ l = (\d+)", r.out, re.M)
                 if ls:
                     inv = r.violated
